@@ -16,9 +16,12 @@ from __future__ import annotations
 
 import copy
 import gc
+import json
 import math
 import os
+import random
 import sys
+import zlib
 from collections import Counter
 
 import numpy as np
@@ -30,7 +33,9 @@ from core import cn
 import lightworks as lw
 from lightworks import emulator
 
-OBSERVERS = ("simulate", "sample", "analyze", "reck", "display", "convert", "tomo")
+OBSERVERS = ("simulate", "sample", "analyze", "reck", "display", "convert", "tomo", "ptomo")
+XBAD = "xbad"          # a call with an argument of the wrong type / an unknown option: python side only (see run_xbad)
+PY_ONLY = OBSERVERS + (XBAD,)
 REWRITE_OPS = ("compress", "nonadj", "copyf")
 
 CIRC_ATTRS = ("_Circuit__circuit_spec", "_Circuit__in_heralds", "_Circuit__out_heralds",
@@ -42,14 +47,35 @@ class IdentityUnavailable(Exception):
     pass
 
 
-def _input_for(c, rng_seed):
+def _input_occupation(c, rng_seed):
     n = c.input_modes
     s = [0] * n
     if n:
         s[rng_seed % n] = 1
         if n > 1 and rng_seed % 3 == 0:
             s[(rng_seed // 3) % n] += 1
-    return lw.State(s)
+        if rng_seed % 7 == 0:
+            s[(rng_seed // 7) % n] += 2          # three and more photons, several on one mode
+        if rng_seed % 11 == 0:
+            s = [0] * n                          # the vacuum
+    return s
+
+
+def _tomo_experiment(circuits, inputs=None):
+    """the user callback of the tomography classes: exact output distribution of every circuit it is handed"""
+    res = []
+    for i, cc in enumerate(circuits):
+        st = lw.State([1, 0] * (cc.input_modes // 2)) if inputs is None else inputs[i]
+        try:
+            pd = emulator.Sampler(cc, st).probability_distribution
+            r = {k: int(round(1000 * v)) for k, v in pd.items()
+                 if all(k[2 * j] + k[2 * j + 1] == 1 for j in range(len(k) // 2))}      # dual-rail outcomes only
+        except Exception:  # noqa: BLE001
+            r = {}
+        if not r or sum(r.values()) == 0:
+            r = {lw.State([1, 0] * (cc.input_modes // 2)): 10}
+        res.append(r)
+    return res
 
 
 def _shared_gate_snapshot():
@@ -64,6 +90,8 @@ def _shared_gate_snapshot():
             for idx, g in enumerate(objs):
                 if isinstance(g, lw.Circuit):
                     out[f"{name}:{k}:{idx}"] = (g.n_modes, g.input_modes, str(g.heralds), np.round(g.U_full, 12).tobytes())
+                elif isinstance(g, lw.State):        # the shared input states of process tomography
+                    out[f"{name}:{k}:{idx}"] = ("state", str(g), len(g), tuple(g.s))
     return out
 
 
@@ -83,46 +111,317 @@ def _fock_space(c, st):
 def run_observer(pool, op):
     k, cid, seed = op[0], op[1], op[2]
     c = pool[cid]
-    st = _input_for(c, seed)
-    before_state = st.s
+    occ = _input_occupation(c, seed)
+    st = lw.State(list(occ))
+    st2 = lw.State(list(occ))        # a second State object, handed in as a requested output
     if k in ("simulate", "sample", "analyze") and _fock_space(c, st) > OBS_STATE_SPACE:
         # a 27-mode, 7-photon circuit costs minutes and gigabytes; the observer's result is not part of the property
         return
     if k == "simulate":
-        emulator.Simulator(c).simulate(st)
+        sim = emulator.Simulator(c)
+        sim.simulate(st)
+        if seed % 2:
+            sim.simulate([st, st2], [st2, st])
     elif k == "sample":
         s = emulator.Sampler(c, st, backend=emulator.Backend("slos" if seed % 2 else "permanent"))
         s.probability_distribution  # noqa: B018
-        s.sample_N_outputs(5, seed=seed)
+        if sum(occ) or seed % 2:
+            s.sample_N_outputs(5, seed=seed)
+        if seed % 5 == 0:
+            s.sample_N_inputs(5, seed=seed)
     elif k == "analyze":
-        emulator.Analyzer(c).analyze(st)
+        an = emulator.Analyzer(c)
+        an.analyze(st)
+        if seed % 2:
+            an.analyze([st, st2])
     elif k == "reck":
-        lw.interferometers.Reck().map(c)
+        if seed % 3 == 0:
+            lw.interferometers.Reck(lw.interferometers.ErrorModel()).map(c, seed=seed)
+        else:
+            lw.interferometers.Reck().map(c)
     elif k == "display":
         import matplotlib.pyplot as plt
         lw.Display(c, display_type="svg" if seed % 2 else "mpl", display_loss=bool(seed % 3))
         plt.close("all")
     elif k == "convert":
         from qiskit import QuantumCircuit
+        from lightworks.qubit import qiskit_converter
         q = QuantumCircuit(3)
-        q.h(0); q.cx(0, 2); q.s(1); q.cz(1, 2)
-        if seed % 2:
-            q.ccz(0, 1, 2)
-        lw.qubit.converter.qiskit_converter(q, allow_post_selection=bool(seed % 2))
+        if seed % 4 < 2:
+            q.h(0); q.cx(0, 2); q.s(1); q.cz(1, 2)
+            if seed % 2:
+                q.ccz(0, 1, 2)
+        else:
+            # every shared single-qubit instance after heralded two-qubit gates (whose ancillas then lie inside the register)
+            import random as _r
+            r = _r.Random(seed)
+            q.cx(r.randrange(2), 2) if r.random() < 0.5 else q.cz(0, 1 + r.randrange(2))
+            for _ in range(r.randint(3, 8)):
+                g = r.choice(["h", "x", "y", "z", "s", "sdg", "t", "tdg", "sx", "cx", "cz", "swap"])
+                if g in ("cx", "cz", "swap"):
+                    a, b = r.sample(range(3), 2)
+                    getattr(q, g)(a, b)
+                else:
+                    getattr(q, g)(r.randrange(3))
+        try:
+            qiskit_converter(q, allow_post_selection=bool(seed % 2))
+        except Exception as e:  # noqa: BLE001  (a program the converter refuses is fine; a missing entry point is not)
+            if isinstance(e, (AttributeError, ImportError, NameError)):
+                raise AssertionError(f"INTERNAL: the converter observer could not run: {e}") from e
+            raise
     elif k == "tomo":
         from lightworks.tomography import StateTomography
+        if c.input_modes in (2, 4) and sum(c.heralds["input"].values()) <= 3 and c.n_modes <= 9:
+            StateTomography(c.input_modes // 2, c, _tomo_experiment).process()
+    elif k == "ptomo":
+        from lightworks import tomography as tm
+        if c.input_modes == 2 and sum(c.heralds["input"].values()) <= 3 and c.n_modes <= 8:
+            cls = (tm.LIProcessTomography, tm.GateFidelity, tm.LIProcessTomography)[seed % 3]
+            t = cls(1, c, _tomo_experiment)
+            t.process(np.eye(2)) if cls is tm.GateFidelity else t.process()
+    # the reference is the occupation the case prescribes, not a value read back from the object before the call
+    if list(st.s) != occ or list(st2.s) != occ or len(st) != len(occ) or st != lw.State(list(occ)):
+        raise AssertionError(f"input State modified: {st} / {st2}, was {occ}")
 
-        def experiment(circuits):
-            res = []
-            for cc in circuits:
-                smp = emulator.Sampler(cc, lw.State([1, 0]))
-                res.append(smp.sample_N_outputs(20, seed=seed))
-            return res
 
-        if c.input_modes == 2 and not c.heralds["input"]:
-            StateTomography(1, c, experiment).process()
-    if st.s != before_state:
-        raise AssertionError("input State modified")
+XBAD_KINDS = ("conv", "mode_type", "herald_type", "add_type", "swaps_type", "barrier_type", "loss_type", "refl_type")
+
+
+def run_xbad(pool, op):
+    """One construction call that the code refuses because an argument has the wrong type or names an unknown option
+    (the table-driven malformed stream only has numbers out of range).  Must raise; what it raises is not compared."""
+    import random as _r
+    _, cid, kind, seed = op
+    r = _r.Random(seed)
+    c = pool[cid]
+    nv = c.n_modes - len(c._internal_modes)
+    m = r.randrange(max(nv, 1))
+    m2 = (m + 1) % nv if nv >= 2 else m
+    junk = r.choice([0.5, None, "0", lw.Parameter(0), [0], -0.5])
+    if kind == "conv":
+        c.bs(m, m2, reflectivity=0.5, convention=r.choice(["h", "rx", "", None, "HH", 0]))
+    elif kind == "mode_type":
+        f = r.randrange(5)
+        if f == 0:
+            c.ps(junk, 0.1)
+        elif f == 1:
+            c.loss(junk, 0.1)
+        elif f == 2:
+            c.bs(junk, m2)
+        elif f == 3:
+            c.bs(m, r.choice([0.5, "0", lw.Parameter(0), [0], m + 0.5]))           # first mode fine, second not
+        else:
+            c.ps(True, 0.1) if not c._internal_modes else c.ps(m + 0.5, 0.1)
+    elif kind == "herald_type":
+        f = r.randrange(4)
+        if f == 0:
+            c.herald(r.choice([1.0, True, "1", None, [1]]), m)
+        elif f == 1:
+            c.herald(1, junk)
+        elif f == 2:
+            c.herald(1, m, r.choice([0.5, "0", lw.Parameter(0), [0]]))             # input mode fine (and free or not), output not
+        else:
+            c.herald(0, m + 0.5, m)
+    elif kind == "add_type":
+        sub = lw.Circuit(1)
+        sub.ps(0, 0.3)
+        f = r.randrange(3)
+        if f == 0:
+            c.add(r.choice([None, 3, np.eye(2), "circuit", [sub]]))
+        elif f == 1:
+            c.add(sub, junk if junk is not None else 0.5)
+        else:
+            c.add(lw.Unitary, 0)                                                     # the class, not an instance
+    elif kind == "swaps_type":
+        f = r.randrange(3)
+        if f == 0:
+            c.mode_swaps([(m, m2), (m2, m)])
+        elif f == 1:
+            c.mode_swaps({m: m2 + 0.5, m2 + 0.5: m})
+        else:
+            c.mode_swaps({m: "0", "0": m})
+    elif kind == "barrier_type":
+        f = r.randrange(3)
+        if f == 0:
+            c.barrier([m, r.choice([0.5, None, "0", [0]])])                          # first entry fine
+        elif f == 1:
+            c.barrier(m)
+        else:
+            c.barrier([m, m2, lw.Parameter(0)])
+    elif kind == "loss_type":
+        bad = r.choice([lw.Parameter(1.5), lw.Parameter(-0.5), lw.Parameter("a"), lw.Parameter(None), lw.Parameter(True),
+                        True, False, "0.5", 1 + 1j])
+        f = r.randrange(3)
+        if f == 0:
+            c.loss(m, bad)
+        elif f == 1:
+            c.ps(m, 0.2, bad)
+        else:
+            c.bs(m, m2, 0.5, bad)
+    elif kind == "refl_type":
+        c.bs(m, m2, r.choice(["0.5", None, [0.5], 2 + 0j, lw.Parameter]))
+    else:
+        raise RuntimeError(kind)
+
+
+def run_xbad_text(op):
+    return f"wrongly typed argument, kind {op[2]} #{op[3]}"
+
+
+def param_scenario(seed):
+    """A circuit whose components (top level, inside a plain group, inside a heralded group) hold Parameter objects is
+    used as an ARGUMENT: copied, frozen, added to a parent with an ancilla, summed, observed; its copies are rewritten
+    and edited.  After every call the circuit must be as before - observable state and the very Parameter objects it
+    lists - and afterwards it must still follow its Parameters (reference: the same recipe built from plain numbers)."""
+    rng = random.Random(seed)
+    n = rng.randint(2, 4)
+    vals, live = [], []
+
+    def slot(lo, hi, p=0.75):
+        vals.append(rng.uniform(lo, hi))
+        live.append(rng.random() < p)
+        return len(vals) - 1
+
+    def comps(w, k):
+        out = []
+        for _ in range(k):
+            kind = rng.choice(["bs", "bs", "ps", "ps", "loss", "swaps"] if w >= 2 else ["ps", "loss"])
+            if kind == "bs":
+                a, b = rng.sample(range(w), 2)
+                out.append(("bs", a, b, slot(0.05, 0.95), rng.choice(["Rx", "H"]), slot(0.05, 0.6) if rng.random() < 0.3 else None))
+            elif kind == "ps":
+                out.append(("ps", rng.randrange(w), slot(-3, 3), slot(0.05, 0.6) if rng.random() < 0.3 else None))
+            elif kind == "loss":
+                out.append(("loss", rng.randrange(w), slot(0.05, 0.6)))
+            else:
+                a, b = rng.sample(range(w), 2)
+                out.append(("swaps", a, b))
+        return out
+
+    recipe = [("comps", comps(n, rng.randint(1, 3)))]
+    for _ in range(rng.randint(1, 2)):
+        w = rng.randint(1, n)
+        her = rng.random() < 0.4
+        recipe.append(("sub", w + (1 if her else 0), comps(w + (1 if her else 0), rng.randint(1, 3)),
+                       (rng.choice([0, 1]), rng.randrange(w + 1)) if her else None, rng.randint(0, n - w), rng.random() < 0.5))
+        if rng.random() < 0.5:
+            recipe.append(("comps", comps(n, rng.randint(1, 2))))
+
+    def put(c, items, arg):
+        for it in items:
+            if it[0] == "bs":
+                c.bs(it[1], it[2], reflectivity=arg(it[3]), convention=it[4], **({} if it[5] is None else {"loss": arg(it[5])}))
+            elif it[0] == "ps":
+                c.ps(it[1], arg(it[2]), **({} if it[3] is None else {"loss": arg(it[3])}))
+            elif it[0] == "loss":
+                c.loss(it[1], arg(it[2]))
+            else:
+                c.mode_swaps({it[1]: it[2], it[2]: it[1]})
+
+    def build(arg):
+        c = lw.Circuit(n)
+        for r in recipe:
+            if r[0] == "comps":
+                put(c, r[1], arg)
+            else:
+                _, w, items, her, m, g = r
+                sub = lw.Circuit(w)
+                put(sub, items, arg)
+                if her:
+                    sub.herald(her[0], her[1])
+                c.add(sub, m, group=g)
+        return c
+
+    pars = [lw.Parameter(v) if l else None for v, l in zip(vals, live)]
+    s = build(lambda i: pars[i] if pars[i] is not None else vals[i])
+
+    def plain(values):
+        return np.array(build(lambda i: values[i]).U_full)
+
+    S0 = cg.snapshot(s)
+    P0 = [id(p) for p in s.get_all_params()]
+    if "ok" not in S0[5] or not np.allclose(np.array(S0[5]["ok"][1])[..., 0] + 1j * np.array(S0[5]["ok"][1])[..., 1], plain(vals), atol=1e-9):
+        return "as built: U_full differs from the same recipe built from plain numbers"
+
+    def unchanged(after):
+        d = core.approx_equal(S0, cg.snapshot(s), tol=1e-12)
+        if d:
+            return f"{after} changed the circuit it was given: {d}"
+        if [id(p) for p in s.get_all_params()] != P0:
+            return f"{after}: the circuit it was given no longer lists the same Parameter objects"
+        return None
+
+    nvis = n
+    k_open = s.input_modes
+    st = [0] * k_open
+    if k_open:
+        st[rng.randrange(k_open)] = 1
+    cp = fz = None
+    FZ = None
+    steps = ["copy", "freeze", "add", "plus", "observe", "rewrite", "edit", "freeze", "add"]
+    rng.shuffle(steps)
+    for step in steps[:rng.randint(4, len(steps))]:
+        if step == "copy":
+            cp = s.copy()
+        elif step == "freeze":
+            fz = s.copy(freeze_parameters=True)
+            FZ = cg.snapshot(fz)
+        elif step == "add":
+            par = lw.Circuit(nvis + 1)
+            anc = lw.Circuit(2)
+            anc.bs(0, 1)
+            anc.herald(0, rng.randrange(2))
+            par.add(anc, rng.randint(0, nvis))
+            par.add(s, rng.randint(0, nvis + 1 - k_open) if k_open else 0, group=rng.random() < 0.5)
+            par.ps(0, 0.3)
+        elif step == "plus":
+            if not s.heralds["input"]:
+                other = lw.Circuit(n)
+                other.ps(0, pars[0] if pars[0] is not None else 0.2)
+                z = s + other if rng.random() < 0.5 else other + s
+                z.compress_mode_swaps()
+                z.bs(0, 1, reflectivity=0.3)
+        elif step == "observe":
+            kind = rng.randrange(4)
+            try:
+                if kind == 0:
+                    emulator.Simulator(s).simulate(lw.State(st))
+                elif kind == 1:
+                    emulator.Sampler(s, lw.State(st)).probability_distribution  # noqa: B018
+                elif kind == 2:
+                    import matplotlib.pyplot as plt
+                    lw.Display(s, display_type=rng.choice(["svg", "mpl"]), show_parameter_values=rng.random() < 0.5, display_loss=True)
+                    plt.close("all")
+                else:
+                    lw.interferometers.Reck().map(s)
+            except Exception:  # noqa: BLE001  (the observer's own outcome is not this property)
+                pass
+        elif step == "rewrite" and cp is not None:
+            getattr(cp, rng.choice(["compress_mode_swaps", "remove_non_adjacent_bs", "unpack_groups"]))()
+        elif step == "edit":
+            t = rng.choice([x for x in (cp, fz) if x is not None] or [s.copy()])
+            t.ps(0, 0.4)
+            t.bs(0, 1, reflectivity=0.2, loss=0.1)
+            if t is fz:
+                FZ = cg.snapshot(fz)
+        msg = unchanged(step)
+        if msg:
+            return msg
+    new = [rng.uniform(-3, 3) if any(it[0] == "ps" and it[2] == i for r in recipe for it in (r[1] if r[0] == "comps" else r[2])) else rng.uniform(0.05, 0.6)
+           for i in range(len(vals))]
+    for i, p_ in enumerate(pars):
+        if p_ is not None:
+            p_.set(new[i])
+        else:
+            new[i] = vals[i]
+    if not np.allclose(np.array(s.U_full), plain(new), atol=1e-9):
+        return ("after it was copied / frozen / added / summed / observed, the circuit no longer follows its Parameters "
+                "(U_full differs from the same recipe built from the new values)")
+    if fz is not None:
+        d = core.approx_equal(FZ, cg.snapshot(fz), tol=1e-12)
+        if d:
+            return f"the frozen copy moved when the Parameters of the original were set: {d}"
+    return None
 
 
 def apply8(pool, op):
@@ -307,7 +606,11 @@ class C08:
             "values, duplicate heralds, incomplete swaps, oversize additions; the same circuit reused as an argument several times, "
             "parents with ancillas inside spans; copy / + / compress_mode_swaps / remove_non_adjacent_bs / unpack_groups followed by "
             "edits on both sides of the shared structure) interleaved with observer calls (Simulator, Sampler, Analyzer, Reck().map, "
-            "Display, qiskit converter, state tomography; the emulator calls are skipped on circuits whose Fock space exceeds 20000 states); after EVERY call the observable state of EVERY live object is compared with "
+            "Display, qiskit converter, state and process tomography / gate fidelity on two-rail circuits with an ancilla between the "
+            "rails; inputs with 0, 1, 2 and >= 3 photons, the State objects handed in compared with the occupation of the case; "
+            "calls refused for an argument's TYPE or an unknown option (float / None / str / Parameter / list modes, bool and float "
+            "photon numbers, non-circuits to add, non-dict swaps, invalid and falsy loss values and loss Parameters, unknown "
+            "conventions); Parameter-carrying circuits used as arguments (python side); the emulator calls are skipped on circuits whose Fock space exceeds 20000 states); after EVERY call the observable state of EVERY live object is compared with "
             "its state before the call (only the call's target may change; nothing if it raised), the final states with the functional "
             "model, and after every call the identity structure of the real objects with the addresses of the reference-level heap "
             "model (alarm when the implementation shares more). Non-trivial = a history with >= 1 rejected call and >= 1 accepted add "
@@ -346,12 +649,47 @@ class C08:
                 pos = rng.randint(1, len(prog))
                 defined = [o[1] for o in prog[:pos] if o[0] in ("new", "unitary", "copy", "plus", "copyf")]
                 if defined:
-                    kind = rng.choice(OBSERVERS if i % 5 == 0 else OBSERVERS[:5])
+                    kind = rng.choice(OBSERVERS[:7] if i % 5 == 0 else OBSERVERS[:5])
                     prog.insert(pos, [kind, rng.choice(defined), rng.randint(0, 99)])
+            # calls refused because of an argument's TYPE or an unknown option (python side only), at random places; drawn
+            # from a PRNG seeded by the program text, so the shared stream - and every history above - is as before
+            r2 = random.Random(zlib.crc32(json.dumps(prog).encode()))
+            for _ in range(r2.choice([0, 1, 1, 2, 3])):
+                pos = r2.randint(1, len(prog))
+                defined = [o[1] for o in prog[:pos] if o[0] in ("new", "unitary", "copy", "plus", "copyf")]
+                if defined:
+                    prog.insert(pos, [XBAD, r2.choice(defined), r2.choice(XBAD_KINDS), r2.randrange(10**6)])
             cases.append(dict(kind="history", prog=prog))
+        # tomography / converter histories: a two-rail circuit, possibly with a heralded sub-circuit whose ancilla sits
+        # BETWEEN the rails (the measurement and preparation gates shared by all runs are then added across an ancilla),
+        # observed by state and process tomography and by the converter, then reused as an argument
+        for i in range(n // 12):
+            r2 = random.Random(rng.randrange(10**9))
+            prog = [["new", 0, 2]]
+            for _ in range(r2.randint(0, 2)):
+                prog.append(cg.gen_primitive(r2, 0, 2, loss_p=0.0, kinds=["bs", "ps", "swaps"]))
+            if r2.random() < 0.7:
+                prog += [["new", 1, 2], ["bs", 1, 0, 1, r2.randrange(len(cg.BSV)), None, r2.choice(["Rx", "H"])],
+                         ["herald", 1, r2.choice([0, 0, 1]), r2.randrange(2), None if r2.random() < 0.5 else r2.randrange(2)],
+                         ["add", 0, 1, 1, r2.random() < 0.3]]
+            for _ in range(r2.randint(1, 3)):
+                prog.append([r2.choice(["tomo", "ptomo", "ptomo", "convert"]), 0, r2.randint(0, 99)])
+                if r2.random() < 0.4:
+                    prog.append(cg.gen_primitive(r2, 0, 2, loss_p=0.0, kinds=["bs", "ps"]))
+            prog += [["new", 2, 3], ["add", 2, 0, r2.randrange(2), r2.random() < 0.5], ["tomo", 0, r2.randint(0, 99)]]
+            cases.append(dict(kind="history", prog=prog))
+        # circuits that hold Parameter objects, used as arguments (python side only)
+        for i in range(n // 3 if tier == "quick" else n // 8):
+            cases.append(dict(kind="param", prog=[], seed=rng.randrange(10**9)))
         return cases
 
     def impl(self, c):
+        if c["kind"] == "param":
+            try:
+                fail = param_scenario(c["seed"])
+            except Exception as e:  # noqa: BLE001
+                fail = f"a valid call raised {type(e).__name__}: {e}"
+            return [[], [], {"fail": fail, "rejected": 0, "ident": None, "identity_comparison": "n/a: Parameter scenario"}]
         prog = c["prog"]
         pool = {}
         outcomes = []
@@ -361,17 +699,32 @@ class C08:
         ident_skipped = None
         shared0 = _shared_gate_snapshot()
         before = None
+        observed = Counter()
+        xbad_accepted = None
         for op in prog:
             before = {cid: cg.snapshot(x) for cid, x in pool.items()}
-            if op[0] in OBSERVERS:
+            if op[0] == XBAD:
+                if op[1] not in pool:
+                    continue
+                try:
+                    run_xbad(pool, op)
+                    xbad_accepted = op       # not this property's business; the history cannot be followed any further
+                    break
+                except Exception:  # noqa: BLE001
+                    out = {"err": "refused"}
+                    rejected += 1
+                target = None
+            elif op[0] in OBSERVERS:
                 try:
                     run_observer(pool, op)
                     out = {"ok": []}
+                    observed[op[0] + ":ran"] += 1
                 except AssertionError as e:
                     out = {"ok": []}
                     fail = fail or f"op {op}: {e}"
                 except Exception as e:  # noqa: BLE001  (observer outcome is not part of this property)
                     out = {"obs_err": type(e).__name__}
+                    observed[op[0] + ":raised"] += 1
                 target = None
             else:
                 try:
@@ -399,7 +752,8 @@ class C08:
                     after = cg.snapshot(pool[cid])
                     d = core.approx_equal(snap, after, tol=1e-12)
                     if d:
-                        what = "a call that raised" if "err" in out else ("an observer call" if op[0] in OBSERVERS else "a call")
+                        what = ("a call that raised" if "err" in out else ("an observer call" if op[0] in OBSERVERS else "a call")) \
+                            + (" [" + run_xbad_text(op) + "]" if op[0] == XBAD else "")
                         fail = f"op {op} ({what}) changed circuit {cid} which is not its target: {d}"
                         break
         if fail is None and _shared_gate_snapshot() != shared0:
@@ -416,7 +770,8 @@ class C08:
                 pass
             gc.collect()
         return [outcomes, world, {"fail": fail, "rejected": rejected, "ident": None if ident_skipped else ident,
-                                  "identity_comparison": ("skipped: " + ident_skipped) if ident_skipped else "pending"}]
+                                  "identity_comparison": ("skipped: " + ident_skipped) if ident_skipped else "pending",
+                                  "observed": dict(observed), "xbad_accepted": xbad_accepted}]
 
     def coq_header(self):
         return ("From Coq Require Import ZArith List.\nFrom Bignums Require Import BigQ.\n"
@@ -424,9 +779,11 @@ class C08:
                 "Exec.RunC08.\n")
 
     def coq_expr(self, c):
+        if c["kind"] == "param":
+            return "SL nil"
         items = []
         for o in c["prog"]:
-            if o[0] in OBSERVERS:
+            if o[0] in PY_ONLY:
                 continue
             if o[0] == "compress":
                 items.append(f"(OCompress {cn(o[1])})")
@@ -439,10 +796,19 @@ class C08:
         return "run_c08 " + core.clist(items)
 
     def decode(self, c, sx):
+        if c["kind"] == "param":
+            return None
         outcomes, world = cg.decode_world(sx[:2])
         return [outcomes, world, sx[2], sx[3]]
 
     def compare(self, c, a, b):
+        if c["kind"] == "param":
+            return None
+        if a[2].get("xbad_accepted"):
+            # a call with an argument of the wrong type was ACCEPTED: outside this property (and outside the model);
+            # the history was abandoned at that point and is only counted
+            a[2]["identity_comparison"] = "skipped: a wrongly typed argument was accepted"
+            return None
         d = core.approx_equal(a[:2], b[:2])
         if d:
             return d
@@ -457,7 +823,7 @@ class C08:
             info["identity_comparison"] = "skipped: number of recorded steps differs"
             return None
         steps = shape = 0
-        ops = [o for o in c["prog"] if o[0] not in OBSERVERS]
+        ops = [o for o in c["prog"] if o[0] not in PY_ONLY]
         for k, (rs, ms) in enumerate(zip(real, model)):
             r = identity_diff(rs, ms, info)
             if r == "shape":
@@ -476,7 +842,9 @@ class C08:
         return obs[2]["fail"]
 
     def nontrivial(self, c, obs):
-        prog = [o for o in c["prog"] if o[0] not in OBSERVERS]
+        if c["kind"] == "param":
+            return True
+        prog = [o for o in c["prog"] if o[0] not in PY_ONLY]
         ok_adds = [i for i, (o, r) in enumerate(zip(prog, obs[0])) if o[0] == "add" and "ok" in r]
         reused = any(any(o2[0] == "add" and o2[2] == prog[i][2] or o2[1] == prog[i][2] for o2 in prog[i + 1:]) for i in ok_adds)
         return obs[2]["rejected"] >= 1 and reused
@@ -490,7 +858,7 @@ class C08:
             for o in r["case"]["prog"]:
                 ops[o[0]] += 1
             if isinstance(r["impl"], list):
-                for o, out in zip([o for o in r["case"]["prog"] if o[0] not in OBSERVERS], r["impl"][0]):
+                for o, out in zip([o for o in r["case"]["prog"] if o[0] not in PY_ONLY], r["impl"][0]):
                     if "err" in out:
                         errs[o[0] + ":" + out["err"]] += 1
                 info = r["impl"][2]
@@ -499,7 +867,14 @@ class C08:
                 steps += info.get("ident_steps", 0)
                 ident["steps_with_different_shape"] += info.get("ident_shape_skipped", 0)
                 ident["group_herald_dicts_shared_more_than_model(harmless)"] += info.get("group_dict_sharing", 0)
-        out = {"ops": dict(ops), "rejected": dict(errs), "identity_runs": dict(ident), "identity_steps_compared": steps}
+        observed, xacc = Counter(), 0
+        for r in recs:
+            if isinstance(r["impl"], list) and len(r["impl"]) == 3:
+                observed.update(r["impl"][2].get("observed") or {})
+                xacc += bool(r["impl"][2].get("xbad_accepted"))
+        out = {"ops": dict(ops), "rejected": dict(errs), "identity_runs": dict(ident), "identity_steps_compared": steps,
+               "observer_calls": dict(observed), "histories_abandoned(wrongly_typed_argument_accepted)": xacc,
+               "parameter_scenarios": sum(1 for c in cases if c["kind"] == "param")}
         if ident.get("skipped"):
             out["identity_comparison"] = "skipped"
         return out
